@@ -83,6 +83,15 @@ fn name_case(usage: &str, s: &str) -> Json {
            "_labels": [format!("usage:{}", usage), format!("len:{}", s.chars().count()), format!("first:{}", pattern.chars().next().unwrap_or('0'))]})
 }
 
+const FACTORY_ORDERS: &[[usize; 3]] = &[[0, 1, 2], [0, 2, 1], [1, 0, 2], [1, 2, 0], [2, 0, 1], [2, 1, 0]];
+
+/// the candidate handed to the three name-taking factories of ONE document, in a given order, twice over
+fn factory_case(s: &str, order: usize) -> Json {
+    let nontrivial = !s.is_empty() && s.chars().any(|c| !c.is_ascii_alphabetic());
+    json!({"kind": "factory", "s": s, "order": order % FACTORY_ORDERS.len(), "_nontrivial": nontrivial,
+           "_labels": ["usage:factories", format!("len:{}", s.chars().count())]})
+}
+
 fn enumerate(reps: &[char], maxlen: usize) -> Vec<String> {
     let mut out = vec![String::new()];
     let mut frontier = vec![String::new()];
@@ -161,7 +170,8 @@ impl Property for C18 {
          enumerating all 1,112,064 Unicode scalar values against interval tables transcribed from productions [2],[4],[4a],[13],[81]; \
          part 2: candidate names = all strings up to length 2 (quick) / 3 (thorough) over class representatives, plus proptest-generated \
          strings of length 0-5, each placed as element name, attribute name, PI target, entity name (declaration + reference) or encoding \
-         name of a one-element document; expected accept iff QName / Name / EncName. Non-trivial = candidate is non-empty and not purely \
+         name of a one-element document; expected accept iff QName / Name / EncName; part 2b: the same candidates handed to create_element, \
+         create_attribute and create_processing_instruction of ONE document in each of the 6 orders, twice over (a verdict must not depend on earlier calls); Non-trivial = candidate is non-empty and not purely \
          ASCII letters (it contains a NameChar-only, colon, non-name or non-ASCII character); distinct by (usage, string)."
             .into()
     }
@@ -189,7 +199,11 @@ impl Property for C18 {
             let s: String = idx.iter().map(|i| ENC_REPS[crate::engine::pick_index(*i, ENC_REPS.len())]).collect();
             name_case("encoding", &s)
         });
-        prop_oneof![5 => name, 1 => enc].boxed()
+        let fac = (0usize..6, proptest::collection::vec(any::<u16>(), 0..5)).prop_map(|(o, idx)| {
+            let s: String = idx.iter().map(|i| REPS[crate::engine::pick_index(*i, REPS.len())]).collect();
+            factory_case(&s, o)
+        });
+        prop_oneof![5 => name, 1 => enc, 2 => fac].boxed()
     }
 
     fn fixed_cases(&self, tier: Tier) -> Vec<Json> {
@@ -210,6 +224,17 @@ impl Property for C18 {
         for usage in &USAGES[..4] {
             for s in ["xmlnsfoo", "xmlns.a", "xmlns-", "xmlns1", "xmlnsx:a", "a:xmlnsx", "xmlx", "xml-a", "xmla", "xmlns\u{e9}", "Xmlns", "xml:a1", "x", "xm", "xmln"] {
                 v.push(name_case(usage, s));
+            }
+        }
+        // part 2b: the same candidates through the DOM factories of one document, in every order of the three calls
+        for s in enumerate(REPS, 2) {
+            for o in 0..FACTORY_ORDERS.len() {
+                v.push(factory_case(&s, o));
+            }
+        }
+        for s in ["a:b:c", "a::b", ":a:", "xmlns", "xmlns:p", "xml", "XML", "p:xml"] {
+            for o in 0..FACTORY_ORDERS.len() {
+                v.push(factory_case(s, o));
             }
         }
         // part 3: every scalar value at the first and at an inner position of a name, in every usage
@@ -267,6 +292,70 @@ impl Property for C18 {
                             if got { "accepted" } else { "rejected" }, if exp { "accept" } else { "reject" }),
                     )
                 }
+            }
+            "factory" => {
+                use xml_dom::DocumentMut;
+                let s = case["s"].as_str().unwrap_or("");
+                let order = FACTORY_ORDERS[case["order"].as_u64().unwrap_or(0) as usize % FACTORY_ORDERS.len()];
+                let doc = match xml_dom::XmlDocument::from_raw("<e/>") {
+                    Ok((_, d)) => d,
+                    Err(_) => return Verdict::Discard("start-document-rejected".into()),
+                };
+                // what one call decides must not depend on the calls made before it: two rounds on one document
+                for round in 0..2 {
+                    for &k in order.iter() {
+                        let (usage, got) = match k {
+                            0 => ("element", crate::engine::panics::catch(std::panic::AssertUnwindSafe(|| doc.create_element(s).is_ok()))),
+                            1 => ("attribute", crate::engine::panics::catch(std::panic::AssertUnwindSafe(|| doc.create_attribute(s).is_ok()))),
+                            _ => ("pi-target", crate::engine::panics::catch(std::panic::AssertUnwindSafe(|| doc.create_processing_instruction(s, "d").is_ok()))),
+                        };
+                        let got = match got {
+                            Ok(g) => g,
+                            Err(_) => return Verdict::fail(format!("c18.factory.{}.panic", usage), format!("the {} factory panics on {:?}", usage, s)),
+                        };
+                        let exp = match expected(usage, s) {
+                            Some(e) if usage == "pi-target" => e && !s.eq_ignore_ascii_case("xml"),
+                            Some(e) => e,
+                            None => continue,
+                        };
+                        obs.label(if exp { "expect:accept" } else { "expect:reject" });
+                        if got != exp {
+                            let pattern: String = s.chars().map(class_of).collect();
+                            let reason = if !got {
+                                format!("valid-{}", pattern)
+                            } else if pattern.is_empty() {
+                                "empty".to_string()
+                            } else if pattern.contains('X') {
+                                "non-name-char".to_string()
+                            } else if pattern.starts_with('C') || pattern.contains(":C") {
+                                "first-char-namechar-only".to_string()
+                            } else if s.eq_ignore_ascii_case("xml") {
+                                "reserved-target".to_string()
+                            } else {
+                                "colon-structure".to_string()
+                            };
+                            // the PI factory parses its target with the parser's name(): one root cause with the document form
+                            let key = if usage == "pi-target" && got && reason == "first-char-namechar-only" {
+                                "c18.name.pi-target.accepted.first-char-namechar-only".to_string()
+                            } else {
+                                format!("c18.factory.{}.{}.{}", usage, if got { "accepted" } else { "rejected" }, reason)
+                            };
+                            if crate::engine::skip_known("C18", &key) {
+                                if !obs.known_hits.contains(&key) {
+                                    obs.known_hits.push(key);
+                                }
+                                continue;
+                            }
+                            return Verdict::fail(
+                                key,
+                                format!("one document, factories called in the order {:?} (0 element, 1 attribute, 2 processing instruction), round {}: the {} factory {} {:?} (code points {}) but the production says {}",
+                                    order, round + 1, usage, if got { "accepts" } else { "refuses" }, s,
+                                    s.chars().map(|c| format!("U+{:04X}", c as u32)).collect::<Vec<_>>().join(" "), if exp { "accept" } else { "reject" }),
+                            );
+                        }
+                    }
+                }
+                Verdict::Pass
             }
             "sweep" => {
                 let usage = case["usage"].as_str().unwrap_or("");
